@@ -119,6 +119,8 @@ def jobs(tier, seed):
             js.append(Job("sel.%s.e%02d" % (sname, i), "props.c09:h_select",
                           {"shapes": sh, "opts": {"ptags": names, "tag_universe": names,
                                                   "tag_expr": {"text": text, "tree": tree, "protocol": proto},
-                                                  "dry_run": "sym", "out_dom": {"*": dom}, "undef": sname == "undef-steps"}},
+                                                  "dry_run": "sym", "out_dom": {"*": dom}, "undef": sname == "undef-steps",
+                                                  # (these two shapes are written with every tag list spread over two lines)
+                                                  "tag_lines": sname in ("rule", "outline2")}},
                           reach=REACH[:2], min_paths=4, cost=100, validate=25 if tier == "quick" else 200, closure=False))
     return js
